@@ -127,3 +127,106 @@ Proof.
       by (change (10 ^ Z.of_nat 8) with 100000000; unfold q, r; pose proof (Z.div_mod sig 100000000); lia).
     rewrite <- Ev. apply canonical_app; [exact C|lia|exact A|exact L|exact V].
 Qed.
+
+(* ---- format_significand: same digits, the low eight dropped when they are all zero ------------------ *)
+Lemma format_significand_unfold : forall sig, format_significand sig =
+  let '(sig1, acc1) :=
+    if (sig / 2 ^ 32 =? 0) then (sig, [])
+    else let q := sig / 100000000 in
+         let r := (sig mod 2 ^ 32 - 100000000 * (q mod 2 ^ 32)) mod 2 ^ 32 in
+         (q, if r =? 0 then [] else four ((r / 10000) mod 10000) ++ four (r mod 10000)) in
+  fmt32 (sig1 mod 2 ^ 32) acc1.
+Proof. reflexivity. Qed.
+
+Lemma strip0_rev_zeros : forall n l, strip0_rev (repeat c_0 n ++ l) = strip0_rev l.
+Proof. induction n; intros; cbn; [reflexivity|apply IHn]. Qed.
+
+Lemma rev_repeat : forall (c : N) n, rev (repeat c n) = repeat c n.
+Proof.
+  induction n; [reflexivity|]. cbn [repeat rev]. rewrite IHn. clear IHn.
+  induction n; [reflexivity|]. cbn. rewrite IHn. reflexivity.
+Qed.
+
+Lemma strip_app_zeros : forall l n, strip_trailing_zeros (l ++ repeat c_0 n) = strip_trailing_zeros l.
+Proof. intros. unfold strip_trailing_zeros. rewrite rev_app_distr, rev_repeat, strip0_rev_zeros. reflexivity. Qed.
+
+Lemma eight_zero : eight 0 = repeat c_0 8.
+Proof. reflexivity. Qed.
+
+Lemma canon_dec_shift8 : forall q, 1 <= q -> canon_dec (q * 100000000) = canon_dec q ++ repeat c_0 8.
+Proof.
+  intros q Hq. apply canonical_unique with (q * 100000000); [apply canon_dec_canonical; lia|].
+  replace (q * 100000000) with (q * 10 ^ Z.of_nat 8 + 0) by (change (10 ^ Z.of_nat 8) with 100000000; lia).
+  apply canonical_app; [apply canon_dec_canonical; lia|lia|reflexivity|reflexivity|reflexivity].
+Qed.
+
+Theorem format_significand_strip : forall sig, 1 <= sig < 10 ^ 17 ->
+  strip_trailing_zeros (format_significand sig) = strip_trailing_zeros (canon_dec sig).
+Proof.
+  intros sig H. rewrite format_significand_unfold. change (10 ^ 17) with 100000000000000000 in H.
+  destruct (sig / 2 ^ 32 =? 0) eqn:E; [apply Z.eqb_eq in E|apply Z.eqb_neq in E].
+  - (* identical to format_integer *)
+    rewrite <- (format_integer_exact sig) by (change (10 ^ 17) with 100000000000000000; lia).
+    rewrite format_integer_unfold, E. reflexivity.
+  - assert (Hs : 2 ^ 32 <= sig).
+    { destruct (Z_lt_le_dec sig (2 ^ 32)); [|assumption]. exfalso. apply E. apply Z.div_small. lia. }
+    change (2 ^ 32) with 4294967296 in Hs. cbv zeta.
+    rewrite low8_trick by (change (10 ^ 17) with 100000000000000000; lia).
+    destruct (sig mod 100000000 =? 0) eqn:Er; [apply Z.eqb_eq in Er|apply Z.eqb_neq in Er].
+    + set (q := sig / 100000000) in *.
+      assert (Hq : 1 <= q < 1000000000) by (unfold q; split; [apply Z.div_le_lower_bound; lia|apply Z.div_lt_upper_bound; lia]).
+      rewrite (Z.mod_small q) by (change (2 ^ 32) with 4294967296; lia).
+      destruct (fmt32_canonical q [] ltac:(change (2 ^ 32) with 4294967296; lia)) as (h & -> & C). rewrite app_nil_r.
+      assert (Eh : h = canon_dec q) by (apply canonical_unique with q; [exact C|apply canon_dec_canonical; lia]).
+      assert (Es : sig = q * 100000000) by (unfold q; pose proof (Z.div_mod sig 100000000); lia).
+      rewrite Eh, Es, canon_dec_shift8 by lia. rewrite strip_app_zeros. reflexivity.
+    + rewrite <- (format_integer_exact sig) by (change (10 ^ 17) with 100000000000000000; lia).
+      rewrite format_integer_unfold. apply Z.eqb_neq in E. rewrite E. cbv zeta.
+      rewrite low8_trick by (change (10 ^ 17) with 100000000000000000; lia). reflexivity.
+Qed.
+
+(* ---- ctz10 is the number of decimal digits --------------------------------------------------------- *)
+Lemma canonical_len_bounds : forall l v, canonical l v -> 1 <= v ->
+  10 ^ (Z.of_nat (length l) - 1) <= v < 10 ^ Z.of_nat (length l).
+Proof.
+  intros l v (A & Nn & V & Z0) Hv. split.
+  - destruct l as [|c [|c' t]]; [congruence| |].
+    + cbn. lia.
+    + cbn in Z0. cbn in A. apply andb_true_iff in A as [Hc At].
+      pose proof (dec_val_lower c (c' :: t) Hc Z0 At) as Lo. rewrite V in Lo.
+      replace (Z.of_nat (length (c :: c' :: t)) - 1) with (Z.of_nat (length (c' :: t))) by (cbn [length]; lia). exact Lo.
+  - rewrite <- V. apply dec_val_bound. exact A.
+Qed.
+
+Lemma digits_of_range : forall v n, 1 <= n -> 10 ^ (n - 1) <= v < 10 ^ n -> Z.of_nat (length (canon_dec v)) = n.
+Proof.
+  intros v n Hn Hv. assert (1 <= v) by (pose proof (Z.pow_pos_nonneg 10 (n - 1)); lia).
+  pose proof (canonical_len_bounds _ _ (canon_dec_canonical v ltac:(lia)) H) as B.
+  set (L := Z.of_nat (length (canon_dec v))) in *.
+  assert (HL : 1 <= L).
+  { unfold L. destruct (canon_dec_canonical v ltac:(lia)) as (_ & Nn & _). destruct (canon_dec v); [congruence|cbn; lia]. }
+  destruct (Z.lt_trichotomy L n) as [Hlt | [Heq | Hgt]]; [exfalso|exact Heq|exfalso].
+  - assert (10 ^ L <= 10 ^ (n - 1)) by (apply Z.pow_le_mono_r; lia). lia.
+  - assert (10 ^ n <= 10 ^ (L - 1)) by (apply Z.pow_le_mono_r; lia). lia.
+Qed.
+
+Lemma ctz10_digits : forall v, 1 <= v < 10 ^ 17 -> ctz10 v = Z.of_nat (length (canon_dec v)).
+Proof.
+  intros v H. change (10 ^ 17) with 100000000000000000 in H. unfold ctz10.
+  repeat match goal with
+         | |- context [?a <=? ?b] => destruct (Z.leb_spec a b)
+         | |- context [?a <? ?b] => destruct (Z.ltb_spec a b)
+         end; symmetry; apply digits_of_range; try lia;
+    match goal with |- 10 ^ ?a <= _ < 10 ^ ?b => let x := eval vm_compute in (10 ^ a) in let y := eval vm_compute in (10 ^ b) in
+      change (10 ^ a) with x; change (10 ^ b) with y end; lia.
+Qed.
+
+(* ---- write_dec (float64) in terms of the canonical digits --------------------------------------------- *)
+Definition ideal_len (s : Z) : Z := Z.of_nat (length (canon_dec s)).
+Definition write_dec_ideal := write_dec canon_dec canon_dec ideal_len.
+
+Theorem write_dec_f64_ideal : forall sig exp, 1 <= sig < 10 ^ 17 -> write_dec_f64 sig exp = write_dec_ideal sig exp.
+Proof.
+  intros sig exp H. unfold write_dec_f64, write_dec_ideal, write_dec, format_exponent, format_decimal, ideal_len.
+  rewrite (ctz10_digits sig H), (format_significand_strip sig H), (format_integer_exact sig H). reflexivity.
+Qed.
